@@ -60,6 +60,16 @@ def affine(e):
                 return {kk: v * a[1] for kk, v in b[0].items() if v * a[1] != 0}, a[1] * b[1]
             if not b[0]:
                 return {kk: v * b[1] for kk, v in a[0].items() if v * b[1] != 0}, a[1] * b[1]
+    if k == "proj" and len(e) > 2 and e[2] in ("@Some.0",) and e[1][0] == "call" and len(e[1][2]) == 2:
+        # the payload of a successful checked operation is the plain result: x.checked_sub(y)@Some.0 == x - y
+        m = re.search(r"num::<impl \w+>::checked_(sub|add)$", e[1][1])
+        if m:
+            a, b = affine(e[1][2][0]), affine(e[1][2][1])
+            s = 1 if m.group(1) == "add" else -1
+            d = dict(a[0])
+            for kk, v in b[0].items():
+                d[kk] = d.get(kk, 0) + s * v
+            return {kk: v for kk, v in d.items() if v != 0}, a[1] + s * b[1]
     return {show(e, 300): 1}, 0
 
 
